@@ -8,6 +8,8 @@ import (
 	"sort"
 	"sync"
 	"sync/atomic"
+
+	"github.com/cnotch/ipchub/utils/vhook"
 )
 
 type consumptions struct {
@@ -18,6 +20,7 @@ type consumptions struct {
 func (m *consumptions) SendToAll(p Pack, keyframe bool) {
 	m.Range(func(key, value interface{}) bool {
 		c := value.(*consumption)
+		vhook.At("send.one", c)
 		c.send(p, keyframe)
 		return true
 	})
@@ -27,10 +30,12 @@ func (m *consumptions) RemoveAndCloseAll() {
 	m.Range(func(key, value interface{}) bool {
 		c := value.(*consumption)
 		m.Delete(key)
+		vhook.At("sweep.one", c)
 		c.Close()
 		return true
 	})
 
+	vhook.At("sweep.zero", m)
 	atomic.StoreInt32(&m.count, 0)
 }
 
@@ -42,6 +47,7 @@ func (m *consumptions) Add(c *consumption) {
 func (m *consumptions) Remove(cid CID) *consumption {
 	ci, ok := m.Load(cid)
 	if ok {
+		vhook.At("remove.loaded", ci)
 		m.Delete(cid)
 		atomic.AddInt32(&m.count, -1)
 		return ci.(*consumption)
